@@ -299,7 +299,7 @@ func (generator *ConverterGenerator) mappingForOption(context Context, converter
 		argName := fmt.Sprintf("arg%d", i)
 		valueType := assignment.Path.Last().Type
 		valuePath := converter.inputRootPath().Append(assignment.Path)
-		if mapping.RepeatFor != nil && valueType.IsArray() {
+		if mapping.RepeatFor != nil && assignment.Method != ast.IndexAssignment && valueType.IsArray() {
 			valueType = valueType.AsArray().ValueType
 			valuePath = ast.Path{
 				{Identifier: mapping.RepeatAs, Type: valueType, Root: true},
@@ -587,6 +587,11 @@ func (generator *ConverterGenerator) pathNotNullGuards(rootPath ast.Path, path a
 	var guards []MappingGuard
 
 	for i, chunk := range path {
+		// an indexed chunk (`labels[key]`) only means something inside the loop that declares the index
+		if chunk.Index != nil {
+			continue
+		}
+
 		if !generator.nullableTypes.TypeIsNullable(chunk.Type) {
 			continue
 		}
